@@ -716,7 +716,9 @@ func (c *Client) Do(ctx context.Context, q Query) (err error) {
 			}
 		}
 	}
+	sent := make(chan struct{})
 	g.Go(func() error {
+		defer close(sent)
 		// Sending data.
 		if err := c.sendQuery(ctx, q); err != nil {
 			return errors.Wrap(err, "send query")
@@ -805,6 +807,16 @@ func (c *Client) Do(ctx context.Context, q Query) (err error) {
 		// Handling query cancellation if needed.
 		if gotException.Load() {
 			return nil
+		}
+		if ctx.Err() == nil && !recvFailed.Load() {
+			// The receive loop is over, but the sender may still be at it
+			// (the server ended the stream early and no longer reads):
+			// keep watching the context until the sender is done as well.
+			select {
+			case <-sent:
+				return nil
+			case <-ctx.Done():
+			}
 		}
 		if ctx.Err() != nil {
 			err := multierr.Append(ctx.Err(), c.cancelQuery())
